@@ -96,6 +96,8 @@ class CondAlg(setalg.Alg):
                 if all(a in ("A", "H") for a in self.atoms_of(be)) and self.implies(be, ("or", ("atom", "A"), ("atom", "H"))):
                     return ("and", ("atom", ("UNIVERSE",)), ("atom", ("stronger", self.sig(be))))
             return ("atom", ("all?", self.canon(recv), self.canon(body)))
+        if self.is_setlike(t):
+            return setalg.Alg.interp(self, t)
         return ("atom", ("c", self.canon(t)))
 
     def match_atom(self, scrut, desc):
@@ -110,7 +112,9 @@ class CondAlg(setalg.Alg):
                 x = self.interp(c[1])
                 e = ("and", e, x if c[2] else ("not", x))
             elif c[0] == "match":
-                a = ("atom", self.match_atom(c[1], c[2]))
+                import norm
+                m = norm.Normalizer()(("matches", c[1], c[2]))       # a scrutinee that is itself a decision (helper returning an enum) folds
+                a = ("atom", self.match_atom(m[1], m[2])) if m[0] == "matches" else self.interp(m)
                 e = ("and", e, a if c[3] else ("not", a))
         return e
 
